@@ -44,14 +44,23 @@ def run(ck):
     ck.cov["token_derivation"] = {"session_id": tk["session_id"], "counter": tk["counter"]}
     if tk["derived_token_accepted"]:
         ck.violation("C11:token-derivable-from-disclosed-session-id", tk["derived_token_accepted"], tk)
-    ck.assumptions += ["entry points exercised: RTSP play / publish (Digest), RTSP-over-WebSocket play / publish, HTTP-FLV, WebSocket-FLV, HLS playlist, HLS segment, management API; the WSP control/data channel pair is not yet driven",
+    # a data socket must not be joinable to somebody else's WSP session through identifiers the server discloses
+    out3 = os.path.join(ck.tmp, "c11_wsp.json")
+    ck.run_driver("./c11", "^TestWspJoin$", {"VERIF_OUT": out3})
+    wj = ck.read_result(out3)
+    if not wj["victim_plays"]:
+        raise Infra("WSP join leg: the victim's own session does not play")
+    ck.cov["wsp_join"] = {"victim_channel": wj["victim_channel"], "attacker_channel": wj["attacker_channel"], "joins_answered_200": wj["joined"]}
+    if wj["foreign_media"]:
+        ck.violation("C11:wsp-data-channel-joins-another-user's-session", wj.get("how", ""), wj)
+    ck.assumptions += ["entry points exercised: RTSP play / publish (Digest), RTSP-over-WebSocket play / publish, HTTP-FLV, WebSocket-FLV, HLS playlist, HLS segment, WSP (control + data socket), management API",
                        "paths /a/x, /b/y (pull) and /a/p, /b/p (push); rights from {'', *, /a/*, /b/*, /a/x} x {'', /a/*, /b/p}; u1 varies, adm and u2 are static",
                        "granted = media bytes / 200 / successful RECORD with the stream registered; refused = 401 or 403 (any other outcome is reported as an error and counts as a mismatch)"]
 
 
 META = {
-    "text": "Auth.tla is the reference monitor of the statement over user create/update/delete, login, refresh and expiry; TLC builds the edge cover of its state graph (155 states, 5136 (state, operation) pairs) and emits with every behaviour the decision for every (entry point, user, credential kind, path). The driver replays a seeded sample of the behaviours on the in-process server with authentication on and issues the requests over nine real entry points, comparing granted/refused; a separate leg tries to derive tokens from the session id every RTSP response discloses.",
-    "note": "Trusted: TLC, Auth.tla as transcription of the statement, the scripted clients in harness/vclient and harness/c11. The WSP channel pairing is not covered yet.",
+    "text": "Auth.tla is the reference monitor of the statement over user create/update/delete, login, refresh and expiry; TLC builds the edge cover of its state graph (155 states, 5136 (state, operation) pairs) and emits with every behaviour the decision for every (entry point, user, credential kind, path). The driver replays a seeded sample of the behaviours on the in-process server with authentication on and issues the requests over ten real entry points, comparing granted/refused; a separate leg tries to derive tokens from the session id every RTSP response discloses, another one joins a WSP data socket of a user without rights to the session of a user who is playing (channel ids derived from the attacker's own).",
+    "note": "Trusted: TLC, Auth.tla as transcription of the statement, the scripted clients in harness/vclient and harness/c11.",
     "technique": "TLA+ reference monitor; TLC edge cover with per-state decision tables replayed against the real server's entry points",
     "specs": ["auth"],
 }
